@@ -221,7 +221,7 @@ def decode_value(m, ty, z, heap0, universe, depth=0):
             return None
         es = T.sort_of(ty.args[0])
         larr = heap0('$larr:' + T.sort_name(es), z3.ArraySort(z3.IntSort(), z3.ArraySort(z3.IntSort(), es)))
-        llen = heap0('$llen', z3.ArraySort(z3.IntSort(), z3.IntSort()))
+        llen = heap0('$llen:' + T.sort_name(es), z3.ArraySort(z3.IntSort(), z3.IntSort()))
         n = _py(ev(z3.Select(llen, r)))
         n = max(0, min(n if isinstance(n, int) else 0, 8))
         return [decode_value(m, ty.args[0], z3.Select(z3.Select(larr, r), i), heap0, universe, depth + 1)
